@@ -258,6 +258,32 @@ func (b *Built) build3(n *Node) (s sdf.SDF3, err error) {
 			return nil, e
 		}
 		s, err = sdf.RevolveTheta3D(a, P[0])
+	case "multi3":
+		a, e := kid3(0)
+		if e != nil {
+			return nil, e
+		}
+		var ps v3.VecSet
+		for i := 0; i+2 < len(P); i += 3 {
+			ps = append(ps, v3of(P, i))
+		}
+		s = sdf.Multi3D(a, ps)
+	case "lineof3":
+		a, e := kid3(0)
+		if e != nil {
+			return nil, e
+		}
+		s = sdf.LineOf3D(a, v3of(P, 0), v3of(P, 3), n.S)
+	case "orient3":
+		a, e := kid3(0)
+		if e != nil {
+			return nil, e
+		}
+		var ds v3.VecSet
+		for i := 3; i+2 < len(P); i += 3 {
+			ds = append(ds, v3of(P, i))
+		}
+		s = sdf.Orient3D(a, v3of(P, 0), ds)
 	case "screw":
 		a, e := kid2(0)
 		if e != nil {
@@ -465,6 +491,22 @@ func (b *Built) build2(n *Node) (s sdf.SDF2, err error) {
 			return nil, e
 		}
 		s = sdf.Slice2D(a, v3of(P, 0), v3of(P, 3))
+	case "multi2":
+		a, e := kid2(0)
+		if e != nil {
+			return nil, e
+		}
+		var ps v2.VecSet
+		for i := 0; i+1 < len(P); i += 2 {
+			ps = append(ps, v2of(P, i))
+		}
+		s = sdf.Multi2D(a, ps)
+	case "lineof2":
+		a, e := kid2(0)
+		if e != nil {
+			return nil, e
+		}
+		s = sdf.LineOf2D(a, v2of(P, 0), v2of(P, 2), n.S)
 	case "cache2":
 		a, e := kid2(0)
 		if e != nil {
